@@ -49,6 +49,24 @@ type c6stmt struct {
 
 var c6conds = []string{"true", "n%2 == 0", "n < 3"}
 
+// Flavors: the same program with its constants spelled through local variables
+// (p=1, q=2, z=0), so that expressions end in LOCALGET,LOCALGET,op windows that the
+// peephole optimizer fuses -- inside fragments whose lengths were already used
+// for jump offsets.  Semantics (and therefore the reference trace) are identical.
+type c6flavor struct {
+	conds      []string
+	for3, forc string
+	tag        string
+	cases      []string
+	prologue   string
+}
+
+var c6flavors = []c6flavor{
+	{[]string{"true", "n%2 == 0", "n < 3"}, "i < 2", "n < 6", "n % 3", []string{"0", "1"}, ""},
+	{[]string{"p+z == p+z", "n%q == z+z", "n < p+q"}, "i < p+p", "n < q+q+q", "n % (p + q)", []string{"z + z", "z + p"}, "\tp, q, z := 1, 2, 0\n\t_, _, _ = p, q, z\n"},
+	{[]string{"q-p == p", "n%q == p-p", "n < q*q-p"}, "i < q/p", "n < q*q+q", "n % (q*q - p)", []string{"p - p", "q - p"}, "\tp, q, z := 1, 2, 0\n\t_, _, _ = p, q, z\n"},
+}
+
 type c6ctx struct{ inLoop, inSwitch bool }
 
 type c6gen struct {
@@ -211,6 +229,7 @@ func (g *c6gen) allStmts(size int, c c6ctx) []*c6stmt {
 type c6render struct {
 	b     strings.Builder
 	trace int
+	fl    *c6flavor
 }
 
 func (w *c6render) block(bl []*c6stmt, ind string) {
@@ -232,29 +251,29 @@ func (w *c6render) stmt(s *c6stmt, ind string) {
 	case c6return:
 		w.b.WriteString(ind + "return\n")
 	case c6if:
-		fmt.Fprintf(&w.b, "%sif %s {\n", ind, c6conds[s.c1])
+		fmt.Fprintf(&w.b, "%sif %s {\n", ind, w.fl.conds[s.c1])
 		w.block(s.blocks[0], in)
 		w.b.WriteString(ind + "}\n")
 	case c6ifelse:
-		fmt.Fprintf(&w.b, "%sif %s {\n", ind, c6conds[s.c1])
+		fmt.Fprintf(&w.b, "%sif %s {\n", ind, w.fl.conds[s.c1])
 		w.block(s.blocks[0], in)
 		w.b.WriteString(ind + "} else {\n")
 		w.block(s.blocks[1], in)
 		w.b.WriteString(ind + "}\n")
 	case c6ifelseif:
-		fmt.Fprintf(&w.b, "%sif %s {\n", ind, c6conds[s.c1])
+		fmt.Fprintf(&w.b, "%sif %s {\n", ind, w.fl.conds[s.c1])
 		w.block(s.blocks[0], in)
-		fmt.Fprintf(&w.b, "%s} else if %s {\n", ind, c6conds[s.c2])
+		fmt.Fprintf(&w.b, "%s} else if %s {\n", ind, w.fl.conds[s.c2])
 		w.block(s.blocks[1], in)
 		w.b.WriteString(ind + "} else {\n")
 		w.block(s.blocks[2], in)
 		w.b.WriteString(ind + "}\n")
 	case c6for3:
-		w.b.WriteString(ind + "for i := 0; i < 2; i++ {\n")
+		w.b.WriteString(ind + "for i := 0; " + w.fl.for3 + "; i++ {\n")
 		w.block(s.blocks[0], in)
 		w.b.WriteString(ind + "}\n")
 	case c6forcond:
-		w.b.WriteString(ind + "for n < 6 {\n")
+		w.b.WriteString(ind + "for " + w.fl.forc + " {\n")
 		w.block(s.blocks[0], in)
 		w.b.WriteString(ind + "}\n")
 	case c6forever:
@@ -267,7 +286,7 @@ func (w *c6render) stmt(s *c6stmt, ind string) {
 		w.b.WriteString(ind + "}\n")
 	case c6swTag, c6swBool:
 		if s.kind == c6swTag {
-			w.b.WriteString(ind + "switch n % 3 {\n")
+			w.b.WriteString(ind + "switch " + w.fl.tag + " {\n")
 		} else {
 			w.b.WriteString(ind + "switch {\n")
 		}
@@ -279,13 +298,13 @@ func (w *c6render) stmt(s *c6stmt, ind string) {
 			}
 			if ci < s.nCases {
 				if s.kind == c6swTag {
-					fmt.Fprintf(&w.b, "%scase %d:\n", ind, ci)
+					fmt.Fprintf(&w.b, "%scase %s:\n", ind, w.fl.cases[ci])
 				} else {
 					c := s.c1
 					if ci == 1 {
 						c = s.c2
 					}
-					fmt.Fprintf(&w.b, "%scase %s:\n", ind, c6conds[c])
+					fmt.Fprintf(&w.b, "%scase %s:\n", ind, w.fl.conds[c])
 				}
 				w.block(s.blocks[ci], in)
 				ci++
@@ -295,8 +314,24 @@ func (w *c6render) stmt(s *c6stmt, ind string) {
 	}
 }
 
-func c6body(prog []*c6stmt) string {
-	w := &c6render{}
+// c6usesConst: the program contains a condition, loop bound or switch tag (anything a flavor respells).
+func c6usesConst(bl []*c6stmt) bool {
+	for _, s := range bl {
+		if s.kind >= c6if && s.kind != c6forever && s.kind != c6range {
+			return true
+		}
+		for _, b := range s.blocks {
+			if c6usesConst(b) {
+				return true
+			}
+		}
+	}
+	return false
+}
+
+func c6body(prog []*c6stmt, flavor int) string {
+	w := &c6render{fl: &c6flavors[flavor]}
+	w.b.WriteString(w.fl.prologue)
 	w.block(prog, "\t")
 	return w.b.String()
 }
@@ -548,10 +583,12 @@ type c6replay struct {
 
 func c6run(r *report.Run) {
 	maxN := 5
-	goEvery := 0 // validate reference against Go on every k-th program of the 5-node layer (0 = none)
+	nFlavors := 2 // plain + constants spelled through locals (additive forms)
+	goEvery := 0  // validate reference against Go on every k-th program of the 5-node layer (0 = none)
 	if r.Tier == "thorough" {
 		maxN = 6
 		goEvery = 25
+		nFlavors = 3
 	}
 	r.Rule("all programs of the control-flow mini language (trace/break/continue/return leaves; if, if-else, if-else-if, 3-clause for, condition for, infinite for, range, tagged and tagless switch with 1-2 cases and default absent/first/middle/last; blocks of 1-2 statements; conditions true, n%2==0, n<3) with at most N statement nodes that the reference interpreter finishes; non-trivial = distinct program containing at least one break/continue/return inside a compound statement")
 	r.Assume("reference interpreter (structured, ~120 lines) is trusted as far as its cross-validation against the Go toolchain reaches: the complete <=4-node layer in every run", "programs the reference does not finish within 1000 steps are dropped (a program it finishes but goatlang does not is a violation)")
@@ -647,14 +684,19 @@ func c6run(r *report.Run) {
 				dropped++
 				return
 			}
-			it := item{body: c6body(prog), want: want, nontriv: nontrivial(prog)}
 			idx++
-			cur = append(cur, it)
-			if len(cur) == c6perPkg {
-				flush(cur, withGoLayer)
-				cur = nil
-				if len(batches) >= 256 {
-					execBatches()
+			nt := nontrivial(prog)
+			for fl := 0; fl < nFlavors; fl++ {
+				if fl > 0 && !c6usesConst(prog) {
+					continue // no constant to respell: identical text
+				}
+				cur = append(cur, item{body: c6body(prog, fl), want: want, nontriv: nt})
+				if len(cur) == c6perPkg {
+					flush(cur, withGoLayer)
+					cur = nil
+					if len(batches) >= 256 {
+						execBatches()
+					}
 				}
 			}
 		}
@@ -683,7 +725,7 @@ func c6run(r *report.Run) {
 				}
 				k++
 				if k%goEvery == 0 {
-					sel = append(sel, item{body: c6body(prog), want: want})
+					sel = append(sel, item{body: c6body(prog, k/goEvery%len(c6flavors)), want: want})
 					if len(sel) == c6perPkg {
 						runBatch(sel, true)
 						sel = nil
